@@ -17,9 +17,9 @@ ANCHORS = {
     "C05": DEC + ENC + LOOKUP + [(D, "strip_head_read"), (D, "strip_junk_header"), (D, "decode_data_url"), (T, "flatten"), (T, "rewrite_with_mapping"), ("src/hermes.rs", "decode_hermes"), ("src/hermes.rs", "get_scope_for_token"), ("src/hermes.rs", "rewrite"), ("src/js_identifiers.rs", None)] + SV + [("src/sourceview.rs", "get_line_slice"), ("src/detector.rs", None)],
     "C06": DEC,
     "C07": DEC + ENC + LOOKUP,
-    "C08": [(T, "flatten"), (T, "lookup_token"), (D, "decode_index")] + BLD[:4] + LOOKUP[:1],
-    "C09": [(T, "rewrite_with_mapping"), (T, "rewrite"), ("src/hermes.rs", "rewrite")] + BLD,
-    "C10": [(T, "adjust_mappings"), (T, "create_ranges")],
+    "C08": [(T, "flatten"), (T, "lookup_token"), (D, "decode_index"), (T, "get_source"), (T, "get_source_contents"), (T, "new"), ("src/builder.rs", "has_source_contents"), ("src/builder.rs", "get_source_contents")] + BLD + LOOKUP[:1],
+    "C09": [(T, "rewrite_with_mapping"), (T, "rewrite"), (T, "new"), ("src/hermes.rs", "rewrite"), ("src/hermes.rs", "get_scope_for_token"), ("src/builder.rs", "has_source_contents"), ("src/builder.rs", "take_mapping")] + BLD,
+    "C10": [(T, "adjust_mappings"), (T, "create_ranges"), (T, "new")],
     "C11": VLQ,
     "C12": [(D, "strip_head_read"), (D, "read"), (D, "is_junk_json"), (D, "strip_junk_header"), (D, "decode_data_url"), (D, "decode"), (D, "decode_slice"), ("src/detector.rs", "is_sourcemap_impl"), ("src/detector.rs", "is_sourcemap_slice_impl")],
     "C13": BLD + SMAP + [(E, "as_raw_sourcemap"), (D, "decode_regular")],
@@ -27,7 +27,7 @@ ANCHORS = {
     "C15": SV + [("src/sourceview.rs", "get_line_slice")],
     "C16": SV,
     "C17": [("src/sourceview.rs", "next"), ("src/sourceview.rs", "get_original_function_name"), ("src/sourceview.rs", "rev_token_iter"), ("src/js_identifiers.rs", None), (T, "get_original_function_name")] + LOOKUP[:2],
-    "C18": [("src/detector.rs", None), (D, "decode_data_url"), (T, "to_data_url"), ("src/jsontypes.rs", None)],
+    "C18": [("src/detector.rs", None), (D, "decode_data_url"), (T, "to_data_url"), ("src/jsontypes.rs", None), (E, "as_raw_sourcemap")],
     "C19": [("src/utils.rs", "make_relative_path"), ("src/utils.rs", "find_common_prefix_of_sorted_vec"), ("src/utils.rs", "find_common_prefix"), ("src/utils.rs", "split_path"), ("src/utils.rs", "is_abs_path")],
     "C20": [("src/ram_bundle.rs", n) for n in ("parse", "startup_code", "get_module", "module_count", "next", "is_ram_bundle_slice", "iter_modules", "parse_indexed_from_slice")],
 }
